@@ -4,6 +4,7 @@ import VelaVerif.Lemmas.FpMathExp
 import VelaVerif.Lemmas.LutHardswish
 import VelaVerif.Gen.FpMathTables
 import VelaVerif.Lemmas.SoftmaxTable
+import VelaVerif.Lemmas.RsqrtTable
 /-!
 # C19 — lookup tables and compile-time fixed-point maths match their reference functions
 
@@ -242,6 +243,42 @@ theorem lut8_saturated (signed : Bool) (g : Int → Int) :
     have := hmono a b (by omega)
     unfold clamp
     omega
+
+/-! ## the int8 RSQRT table (`create_lut_rsqrt_int8_op`) -/
+
+/-- the 256 constants `RSQRT_LUT` quoted in `lut.py` ("generated by printing the output from the reference") **are** the
+    reference's values: entry `n` (`1 ≤ n ≤ 255`) = `MultiplyByQuantizedMultiplier(1, inv_sqrt_multiplier, inv_sqrt_shift + 20)`
+    with `GetInvSqrtQuantizedMultiplierExp(n, -1, …)` (five fixed-point Newton–Raphson steps), recomputed here for every
+    entry of the table regenerated from the live source; every constant fits int32; entry 0 is 0. -/
+theorem rsqrt_constants_match :
+    Gen.rsqrtLut.length = 256 ∧ Gen.rsqrtLut[0]? = some 0 ∧ (∀ v ∈ Gen.rsqrtLut, inI32 v = true) ∧
+    ∀ n : Nat, n < 256 → n ≠ 0 → Gen.rsqrtLut[n]? = some (RsqrtRef.rsqrtData (n : Int)) := by decide +kernel
+
+/-- `create_lut_rsqrt_int8_op` with input zero point −128 (real input range starting at 0 — the quantisation of a
+    non-negative tensor): **each of the 256 entries equals the TFLite reference `Rsqrt` int8 kernel**, for every int32
+    output multiplier and Vela shift in `[11, 42]` (scale `1/(√s_in·s_out)` between 2^-12 and 2^20), every output zero point,
+    and lies in `[-128, 127]`.  For other input zero points see `rsqrt_zero_input_witness`. -/
+theorem rsqrt_lut_spec (zpOut mult shift : Int) (hm : inI32 mult = true) (hs : 11 ≤ shift ∧ shift ≤ 42) :
+    rsqrtLut Gen.rsqrtLut (-128) zpOut mult shift =
+      .ok ((codes true).map (RsqrtRef.rsqrtRef (-128) zpOut mult (31 - shift))) ∧
+    ∀ v ∈ (codes true).map (RsqrtRef.rsqrtRef (-128) zpOut mult (31 - shift)), -128 ≤ v ∧ v ≤ 127 := by
+  obtain ⟨_, _, hI, htbl⟩ := rsqrt_constants_match
+  constructor
+  · exact mapM_ok _ _ _ (fun x hx => rsqrt_entry_eq Gen.rsqrtLut htbl hI zpOut mult shift x hm hs (by
+      have := codes_mem true x hx; simpa [qmin, qmax] using this))
+  · intro v hv
+    simp only [List.mem_map] at hv
+    obtain ⟨x, _, rfl⟩ := hv
+    unfold RsqrtRef.rsqrtRef
+    simp only []
+    split <;> omega
+
+/-- With an input zero point other than −128 the entry for real input 0 (`x = zp_in`) is **not** the reference's: the
+    reference returns the maximum 127 ("any value close to 0 represents the max output value"), the Python looks up
+    `RSQRT_LUT[0] = 0` and yields the output zero point (only index −128 is forced to 127).  int8, zero points 0 / 5,
+    multiplier 2^30, shift 20, code 0. -/
+theorem rsqrt_zero_input_witness :
+    rsqrtEntry Gen.rsqrtLut 0 5 1073741824 20 0 = .ok 5 ∧ RsqrtRef.rsqrtRef 0 5 1073741824 (31 - 20) 0 = 127 := by decide
 
 /-! ## the exp table of the 8-bit SOFTMAX (`SoftMax.generate_exp_table`) -/
 
